@@ -82,10 +82,17 @@ def correspondence(rep, rng, tier):
       p, q = gen_rsa.semiprime(rng, bits)
     healthy.append(p * q)
   weakp = gen_rsa.rprime(rng, 1024)
+  sudp = gen_rsa.rprime(rng, 1024)
   weak = [weakp * gen_rsa.rprime(rng, 1024), weakp * gen_rsa.rprime(rng, 1024),
-          (lambda pq: pq[0] * pq[1])(gen_rsa.close_primes(rng, 2048, 400))]
+          (lambda pq: pq[0] * pq[1])(gen_rsa.close_primes(rng, 2048, 400)),
+          sudp * int(gmpy2.next_prime(sudp + 2 ** (1024 - 100))),       # small upper difference
+          gen_rsa.pattern_prime(rng, 1024, 16, lowbits=16) * gen_rsa.rprime(rng, 1024)]
+  # weak keys BEFORE, BETWEEN and AFTER the healthy ones (a verdict leaking to the next artefact
+  # shows only in one of these orders)
+  mixed1 = weak[:3] + healthy[:2] + weak[3:]
+  mixed2 = [weak[3], healthy[0], weak[4], healthy[1], weak[0]]
   for label, batch in (('alone', [[n] for n in healthy]), ('batch', [healthy]),
-                       ('with-weak-neighbours', [healthy[:2] + weak])):
+                       ('with-weak-neighbours', [healthy[:2] + weak, mixed1, mixed2])):
     for ns in batch:
       keys = [art.rsa_key(n) for n in ns]
       ret = paranoid.CheckAllRSA(keys)
@@ -134,6 +141,34 @@ def correspondence(rep, rng, tier):
       ret |= chk.Check(keys)
     names = 'CheckValidECKey+CheckWeakCurve+CheckECKeySmallDifference(2^10)'
   stats['ec'] = len(keys)
+  # healthy keys next to weak neighbours: duplicates before a small-difference pair, structured
+  # private keys (32-bit window at byte offset j) before / after healthy keys
+  for cid in cids[1:3] if not thorough else cids:
+    n = int(ec_util.CURVE_FACTORY[cid].n)
+    dh = [rng.randrange(2**(n.bit_length() - 2), n) for _ in range(3)]
+    dw = rng.randrange(2**(n.bit_length() - 2), n)
+    dup = rng.randrange(2**(n.bit_length() - 2), n)
+    for order in ([('D', dup), ('D', dup), ('H', dh[0]), ('W', dw), ('W', dw + 700)],
+                  [('W', dw), ('H', dh[1]), ('D', dup), ('W', dw + 5), ('D', dup), ('H', dh[2])]):
+      ks = [ec_key(pb, ec_util, util, cid, d) for _, d in order]
+      ea.CheckECKeySmallDifference(max_diff=2**10).Check(ks)
+      for (kind, d), k in zip(order, ks):
+        stats['ec'] += 1
+        if kind == 'H' and (k.test_info.weak or accused(k.test_info)):
+          rep.violations.append(dict(op='CheckECKeySmallDifference', line='order=%s curve=%d' % ([o for o, _ in order], cid),
+                                     what='healthy EC key accused by CheckECKeySmallDifference next to duplicates / a small-difference pair: %s'
+                                          % accused(k.test_info), impl='weak', model='not weak', info=dict(d=hex(d))))
+    for j in (2, 3, 7):
+      w_ = (rng.getrandbits(31) | 1) << (8 * j)
+      for order in ([('H', dh[0]), ('W', w_)], [('W', w_), ('H', dh[1])], [('H', dh[0]), ('H', dh[1]), ('W', w_)]):
+        ks = [ec_key(pb, ec_util, util, cid, d) for _, d in order]
+        es.CheckWeakECPrivateKey().Check(ks)
+        for (kind, d), k in zip(order, ks):
+          stats['ec'] += 1
+          if kind == 'H' and (k.test_info.weak or accused(k.test_info)):
+            rep.violations.append(dict(op='CheckWeakECPrivateKey', line='order=%s curve=%d j=%d' % ([o for o, _ in order], cid, j),
+                                       what='healthy EC key accused by CheckWeakECPrivateKey next to a key with a structured private key: %s'
+                                            % accused(k.test_info), impl='weak', model='not weak', info=dict(d=hex(d))))
   for k, d in zip(keys, ds):
     acc = accused(k.test_info)
     if k.test_info.weak or acc:
